@@ -40,8 +40,16 @@ CertReqFlights == <<
   [dir |-> "s", recs |-> <<Rec(22, SH), Rec(22, CERT), Rec(22, Cut(CR, 5)[1]), Rec(22, Cut(CR, 5)[2]), Rec(21, <<1, 0>>), Rec(22, SHD)>>],
   [dir |-> "c", recs |-> <<Rec(22, CCERT \o CKE), Rec(22, Cut(CV, 2)[1]), Rec(22, Cut(CV, 2)[2]), Rec(20, <<1>>)>>],
   [dir |-> "s", recs |-> <<Rec(22, <<0, 0, 0, 0>>), Rec(20, <<1>>)>>] >>
-MCFlights == IF Scenario = 1 THEN FullFlights ELSE IF Scenario = 2 THEN ResumeFlights ELSE CertReqFlights
-MCSegSizes == {1, 2, 5, 17, 100000}
+(* scenarios >= 4: REAL sessions - flights made of the repository's captures, handed over as a file of JSON lines *)
+(* [dir, recs: [ct, ver, data]] (one flight per line)                                                            *)
+CapturedFlights == ndJsonDeserialize(IOEnv.VERIF_FLIGHTS)
+MCFlights == IF Scenario = 1 THEN FullFlights ELSE IF Scenario = 2 THEN ResumeFlights ELSE IF Scenario = 3 THEN CertReqFlights ELSE CapturedFlights
+MCSegSizes == IF Scenario <= 3 THEN {1, 2, 5, 17, 100000} ELSE {1, 7, 100, 1460, 100000}
+(* the reference is computed once and parked (the captured flights are kilobytes long) *)
+ASSUME TLCSet(7, Reference)
+RefC == TLCGet(7)
+ChunkingInvarianceC == ChunkingInvarianceP(RefC)
+PrefixOfReferenceC == PrefixOfReferenceP(RefC)
 
 Expected == "SessionEncrypted"
 ReachesExpected == Done => tls = Expected
@@ -58,5 +66,5 @@ EmitScenario ==
     EmitLine([scenario |-> Scenario, fl |-> 0, sent |-> 0, tls |-> "", nkinds |-> 0, tcp_c |-> 0, tcp_s |-> 0, inprog_c |-> FALSE,
               inprog_s |-> FALSE, buf_c |-> 0, buf_s |-> 0,
               flights |-> [j \in 1..Len(MCFlights) |-> [dir |-> MCFlights[j].dir, bytes |-> FlightBytes(MCFlights[j])]],
-              kinds |-> [j \in 1..Len(Reference.kinds) |-> Reference.kinds[j][1]]])
+              kinds |-> [j \in 1..Len(RefC.kinds) |-> RefC.kinds[j][1]]])
 =============================================================================
